@@ -170,7 +170,7 @@ func clTerminateOnce(c *Ctx) {
 	rel := p.Func("skiplist", "AccessBarrier", "Release")
 	acq := p.Func("skiplist", "AccessBarrier", "Acquire")
 	fLive := p.Field("skiplist", "BarrierSession", "liveCount")
-	fClosed := p.Field("skiplist", "BarrierSession", "closed")
+	fClosed := p.FieldOpt("skiplist", "BarrierSession", "closed")
 	fFreeq := p.Field("skiplist", "AccessBarrier", "freeq")
 	fSession := p.Field("skiplist", "AccessBarrier", "session")
 	offset, _ := constantInt64(p.Const("skiplist", "barrierFlushOffset"))
@@ -181,11 +181,14 @@ func clTerminateOnce(c *Ctx) {
 		if k, on := atomicOnPtrField(in, fLive); on && k == "Add" {
 			dec, _ = in.(*ssa.Call)
 		}
-		if k, on := atomicOnField(in, fClosed); on && k == "Add" {
-			closedAdd, _ = in.(*ssa.Call)
+		if fClosed != nil {
+			if k, on := atomicOnField(in, fClosed); on && k == "Add" {
+				closedAdd, _ = in.(*ssa.Call)
+			}
 		}
 	}
-	if !c.Check(dec != nil && closedAdd != nil, rel, nil, "Release decrements the live count and claims termination through the closed counter", "") {
+	if !c.Check(dec != nil && closedAdd != nil, rel, nil, "Release decrements the live count and claims termination through the closed counter",
+		"a session can reach the flush offset more than once (accessors that entered a closed session step back out): without the once-only claim it is queued again after it was destructed, and the in-order cleanup stops at the stale entry for ever") {
 		return
 	}
 	n, isC := constInt(dec.Call.Args[1])
